@@ -32,6 +32,7 @@ EXPLANATION = (
     "an operation that cannot remove leading characters; (R19.7) the literal body is read with readexactly(<announced "
     "count>) and the literal pattern is searched in the very line just read. Decides these clauses, not independence from "
     "TCP segmentation (asyncio.StreamReader's contract)."
+    ' (R19.8) the announced octet count is converted with int() inside a handler that keeps the session going: a count of more than 4300 digits is refused like any over-limit literal.'
 )
 RULE_TEXT = "instances: each read call of the front-end loop; each relay loop; each framing writer; each buffer append; each continuation push"
 ASSUMPTIONS = ["asyncio.StreamReader: readexactly(n) returns exactly n bytes or raises; read(n) may return fewer; readuntil raises LimitOverrunError beyond the limit", "not decided: segmentation independence itself"]
